@@ -81,9 +81,24 @@ def deletion_guard(ctx, rule):
                     if s2 is not None:
                         zero, true_t = A.bool_edges(mt, s2)
                         bypass += true_t
+                # ... or through "this keyspace has nothing in any memtable" (get_highest_memtable_seqno() == None): whatever
+                # the journal holds for it has been flushed or cleared, even if its tables lag behind the watermark
+                for b2, t2 in mt.calls():
+                    if A.cname(t2).endswith("::get_highest_memtable_seqno") and any(x.k == "field" and x.a[1] == "keyspace" for x in A.walk(og.of_operand(t2["args"][0]))):
+                        s3, labels3 = A.option_switch_on(mt, og, b2)
+                        if s3 is None:
+                            # `.is_none()` on the result
+                            for b3, t3 in mt.calls():
+                                if A.cname(t3).endswith("Option::<T>::is_none") and any(x.k == "call" and x.site == (mt.id, b2) for x in A.walk(og.of_operand(t3["args"][0]))):
+                                    s4 = A.switch_after_call(mt, b3)
+                                    if s4 is not None:
+                                        zero4, true4 = A.bool_edges(mt, s4)
+                                        bypass += true4
+                        else:
+                            bypass += [tg for tg, ns in labels3.items() if "None" in ns]
                 r = A.reach(mt, some_t, avoid=ps + bypass)
                 ok = bool(some_t) and not any(x in r for x in nexts + rm)
-                detail = "each watermark is either checked against the persisted seqno or belongs to a deleted keyspace" if ok else "a watermark can be skipped without the persisted-seqno check (not via is_deleted)"
+                detail = "each watermark is either checked against the persisted seqno, belongs to a deleted keyspace, or its keyspace has nothing unflushed" if ok else "a watermark can be skipped without the persisted-seqno check (not via is_deleted / an empty-memtables test)"
             ctx.ob(rule, mt, "every-watermark-checked", ok, detail)
             # the check reads the keyspace of the same watermark whose lsn is compared
     return mt, rm, og
@@ -314,3 +329,28 @@ def run(ctx):
             r = A.reach_after(wt, fl[0], avoid=mb + errs)
             ok = not any(x in r for x in wt.return_blocks())
         ctx.ob("R-C10.5", wt, "maintenance-after-flush", ok, "after run_flush every success path runs journal_manager.maintenance()" if ok else "a completed flush is not followed by journal maintenance (journals would pile up)")
+
+
+    # ---- R-C10.6 "once all keyspaces have been flushed the number of journal files returns to one": a keyspace with nothing in its
+    # memtables must not pin a sealed journal although its tables lag behind the watermark (it was cleared, a flush wrote
+    # nothing, or compaction dropped its newest items) — otherwise that journal and every younger one stay forever
+    mt6 = ctx.fn(JM + "::maintenance", "R-C10.6")
+    if mt6:
+        og6 = ctx.og(mt6)
+        rm6 = R.call_blocks(mt6, ("std::fs::remove_file",))
+        byp = []
+        for b2, t2 in mt6.calls():
+            if A.cname(t2).endswith("::get_highest_memtable_seqno") and any(x.k == "field" and x.a[1] == "keyspace" for x in A.walk(og6.of_operand(t2["args"][0]))):
+                s3, labels3 = A.option_switch_on(mt6, og6, b2)
+                if s3 is not None:
+                    byp += [tg for tg, ns in labels3.items() if "None" in ns]
+                for b3, t3 in mt6.calls():
+                    if A.cname(t3).endswith("Option::<T>::is_none") and any(x.k == "call" and x.site == (mt6.id, b2) for x in A.walk(og6.of_operand(t3["args"][0]))):
+                        s4 = A.switch_after_call(mt6, b3)
+                        if s4 is not None:
+                            byp += list(A.bool_edges(mt6, s4)[1])
+        ps6 = [b for b, t in mt6.calls() if A.cname(t).endswith("::" + PERSISTED)]
+        ok6 = bool(byp) and bool(rm6) and any(r_ in A.reach(mt6, byp, avoid=ps6) or any(h in A.reach(mt6, byp, avoid=ps6) for h, tt in mt6.calls() if A.cname(tt).endswith("::next")) for r_ in rm6)
+        ctx.ob("R-C10.6", mt6, "fully-flushed-keyspace-does-not-pin-journals", ok6,
+               "a watermark whose keyspace has nothing in any memtable is satisfied without looking at its tables" if ok6
+               else "a keyspace whose memtables are empty but whose tables lag behind the watermark (clear, empty flush result, compaction dropping the newest tombstone) blocks the eviction forever: every later journal piles up behind it (journal count never returns to one)")
